@@ -7,6 +7,28 @@ MECH = {
  "C02-r2a": "`round_robin_async` prefill through `asyncstdlib.islice` closes the outer shard stream: shards beyond the buffer lost",
  "C02-r2b": "single-reader fast path applies `process_record` twice",
  "C03-a": "pipelined unshuffled reader drains its slots from index 0 instead of the rotating cursor",
+ "C03-r2a": "per-metadata limit rewritten as dict-of-groups: selected shards come out grouped by metadata, not in write order",
+ "C03-r2b": "`as_tfdataset` passes `deterministic=False` to the `process_record` map when a thread pool exists",
+ "C07-r2a": "Rust: next task sent before waiting for the result; closed channel of a finished worker treated as end of results",
+ "C07-r2b": "`round_robin_async` warms its buffer with `gather(return_exceptions=True)` and drops exception heads",
+ "C10-r2a": "'metadata given for the first time' branch no longer checks the shard size (shard of size+1)",
+ "C10-r2b": "written counter advanced before `shard.write`; a rejected write closes the shard one short",
+ "C11-r2a": "identity fast path: same object passed again skips comparison and copy",
+ "C11-r2b": "`if custom_metadata is not None`: an explicit `{}` wipes the label",
+ "C12-r2a": "first-k via a stack-based walker that visits the last child list first",
+ "C12-r2b": "predicate verdict cached per metadata value",
+ "C14-r2a": "async prefetch task with `asyncio.Queue(maxsize=shuffle)`: unbounded when shuffle=0",
+ "C14-r2b": "Rust: shared result channel + reorder buffer; idle workers refilled immediately",
+ "C16-r2a": "digest memoised per (path, size, mtime_ns)",
+ "C16-r2b": "hash objects in a dict keyed by algorithm name: repeated algorithms collapse",
+ "C17-r2a": "shared path check rejects a component equal to '/' instead of `is_absolute()` ('//x' passes)",
+ "C17-r2b": "absolute path accepted when `str(path).startswith(str(root))`",
+ "C18-r2a": "fb: safe-cast rejection after `StartVector`; builder left nested, shard lost",
+ "C18-r2b": "example counter in the base writer, advanced before `_write`",
+ "C19-r2a": "tfrec `as_tfdataset`: `repeat()` after `batch(drop_remainder=repeat)`",
+ "C19-r2b": "`round_robin_async` fill via `asyncstdlib.zip` closes the shard stream",
+ "C20-r2a": "parsed shard lists cached per (path, recorded checksums): never re-read when no algorithms are configured",
+ "C20-r2b": "`dataset_info.json` dumped with `exclude_defaults=True`: recording version dropped",
  "C03-b": "`imap_unordered` + results re-sorted but fillers merged in completion order",
  "C04-a": "merge keeps un-updated children verbatim: child with a deeper update listed twice",
  "C04-b": "example counter incremented before `_write`: rejected writes counted",
@@ -58,8 +80,26 @@ MECH = {
  "C20-b": "`absolute()` instead of `resolve()` + unresolved containment check",
 }
 res = json.load(open('/verif/seeded/RESULTS.json'))
+import io, sys
+out = io.StringIO()
+_print = print
+def print(*a):  # noqa
+    _print(*a, file=out)
 print("| id | mechanism of the seeded change | check | verdict (violation class) |")
 print("|---|---|---|---|")
 for i in sorted(set(MECH) | set(res)):
     r = res.get(i, {})
     print(f"| {i} | {MECH.get(i, '')} | {r.get('check', '')} | {r.get('result', 'not swept yet')} {' '.join(r.get('violation_classes', [])).replace('class=', '')} |")
+
+table = out.getvalue()
+if len(sys.argv) > 1 and sys.argv[1] == "--update-design":
+    d = open('/verif/DESIGN.md').read()
+    start, end = "<!-- TABLE START -->", "<!-- TABLE END -->"
+    if "@@TABLE@@" in d:
+        d = d.replace("@@TABLE@@", start + "\n" + table + end)
+    else:
+        d = d[:d.index(start)] + start + "\n" + table + d[d.index(end):]
+    open('/verif/DESIGN.md', 'w').write(d)
+    _print("DESIGN.md table updated:", table.count("CAUGHT"), "caught,", table.count("MISSED"), "missed")
+else:
+    _print(table)
